@@ -71,6 +71,7 @@ type spec struct {
 	nilErrHandler    bool // buffer.ErrorHandler(nil) is among the options
 	expect100        bool // the request carries Expect: 100-continue
 	hijackAfter      bool // the handler hijacks the connection after writing its output
+	hijackRefused    int  // 1: the handler first asks for the connection, the writer refuses, it answers normally; 2: asks after writing
 	copyMode         bool // the handler streams its body with io.Copy from a plain reader
 	abort            bool // the handler panics (http.ErrAbortHandler) after writing
 }
@@ -181,11 +182,14 @@ func genSpec(t *rapid.T) *spec {
 	}
 	s.abort = s.retry == "" && rapid.IntRange(0, 5).Draw(t, "abort") == 0
 	s.hijackAfter = s.retry == "" && !s.abort && rapid.IntRange(0, 5).Draw(t, "hijackAfterWriting") == 0
+	if !s.hijackAfter && rapid.IntRange(0, 5).Draw(t, "refusedHijack") == 0 {
+		s.hijackRefused = rapid.IntRange(1, 2).Draw(t, "refusedHijackWhen")
+	}
 	return s
 }
 
 func (s *spec) String() string {
-	return fmt.Sprintf("%s reqBody=%d chunked=%v memReq=%d maxReq=%d | memResp=%d maxResp=%d status=%d writes=%v retry=%q failFirst=%d explicitCL=%v copyMode=%v abort=%v h2style=%v verbose=%v formCT=%v upgradeHdr=%v piecewise=%v nilErrHandler=%v expect100=%v hijackAfter=%v", s.method, s.reqBody, s.chunked, s.memReq, s.maxReq, s.memResp, s.maxResp, s.status, s.writes, s.retry, s.failFirst, s.explicitCL, s.copyMode, s.abort, s.h2style, s.verbose, s.formCT, s.upgradeHdr, s.piecewise, s.nilErrHandler, s.expect100, s.hijackAfter)
+	return fmt.Sprintf("%s reqBody=%d chunked=%v memReq=%d maxReq=%d | memResp=%d maxResp=%d status=%d writes=%v retry=%q failFirst=%d explicitCL=%v copyMode=%v abort=%v h2style=%v verbose=%v formCT=%v upgradeHdr=%v piecewise=%v nilErrHandler=%v expect100=%v hijackAfter=%v hijackRefused=%d", s.method, s.reqBody, s.chunked, s.memReq, s.maxReq, s.memResp, s.maxResp, s.status, s.writes, s.retry, s.failFirst, s.explicitCL, s.copyMode, s.abort, s.h2style, s.verbose, s.formCT, s.upgradeHdr, s.piecewise, s.nilErrHandler, s.expect100, s.hijackAfter, s.hijackRefused)
 }
 
 // formatLogger formats its arguments like a real logger.
@@ -259,6 +263,14 @@ func TestC15_LimitsAndTempFiles(t *testing.T) {
 				w.Header().Set("Content-Length", fmt.Sprint(total))
 			}
 			w.Header().Set("X-Attempt", fmt.Sprint(invocations))
+			if s.hijackRefused == 1 { // a handler that prefers the raw connection and falls back to a plain response
+				if hj, ok := w.(http.Hijacker); ok {
+					if conn, _, err := hj.Hijack(); err == nil {
+						conn.Close()
+						t.Fatalf("the front writer refuses to be hijacked, yet Hijack() through the buffer succeeded (%s)", s)
+					}
+				}
+			}
 			if s.retry == "IsNetworkError()" && invocations <= s.failFirst {
 				// a failing backend answers with a short error page, whatever the size of the real answer
 				w.Header().Del("Content-Length")
@@ -304,6 +316,14 @@ func TestC15_LimitsAndTempFiles(t *testing.T) {
 			}
 			if s.abort {
 				panic(http.ErrAbortHandler)
+			}
+			if s.hijackRefused == 2 {
+				if hj, ok := w.(http.Hijacker); ok {
+					if conn, _, err := hj.Hijack(); err == nil {
+						conn.Close()
+						t.Fatalf("the front writer refuses to be hijacked, yet Hijack() through the buffer succeeded (%s)", s)
+					}
+				}
 			}
 			if s.hijackAfter { // the handler takes the connection over after having produced output
 				if hj, ok := w.(http.Hijacker); ok {
@@ -364,6 +384,7 @@ func TestC15_LimitsAndTempFiles(t *testing.T) {
 			req.ContentLength = int64(s.reqBody)
 		}
 		rec := sim.NewRecorder()
+		rec.RefuseHijack = s.hijackRefused > 0
 		aborted := false
 		func() {
 			defer func() {
